@@ -107,7 +107,9 @@ func (c *snCtx[GE, S, RP]) body() func(*engine.X) {
 		named := cfg.h.name == "sha256" && cfg.le && !cfg.neg && !cfg.parity
 		km := engine.Pick(x, "key,msg", keyMsgPairs(engine.Thorough() && named))
 		ki, mi := km[0], km[1]
-		full := engine.Thorough() || (named && mi == 1 && ki == 2)
+		// all bits of the encoding: quick = the named configuration on (derived key, "a"); thorough = the named configuration
+		// on every (key, message) and every other configuration on (derived key, "a"); the boundary bit subset elsewhere
+		full := (named && mi == 1 && ki == 2) || (engine.Thorough() && (named || (mi == 1 && ki == 2)))
 		nChunks := 1
 		if full {
 			nChunks = 8
